@@ -45,6 +45,9 @@ def frameSpec (env : Env) (m : Msg) : String :=
          " track=" ++ optN tg.1 ++ " gs=" ++ optN tg.2 ++ " vrate=" ++ optI (vrateSpec v)
            ++ " vew=" ++ toString (vew v) ++ " vns=" ++ toString (vns v)
        else " track=- gs=- vrate=-")
+   ++ " ver=" ++ (if d = 17 ∧ tc = 31 then toString (field m 73 75) else "-")
+   ++ " ss=" ++ (if d = 17 ∧ ((9 ≤ tc ∧ tc ≤ 18) ∨ (20 ≤ tc ∧ tc ≤ 22)) then
+                   toString ((match field m 38 39 with | 0 => 'N' | 1 => 'P' | 2 => 'T' | _ => 'S').toNat) else "-")
 
 def hexDigitC (n : Nat) : Char := if n < 10 then Char.ofNat (48 + n) else Char.ofNat (55 + n)
 
